@@ -14,7 +14,8 @@ import (
 
 // typedConnRewrite prepares the sources of the package under test FOR NATIVE REPLAY ONLY: every call
 // of a method of *grpc.ClientConn becomes a call of the harness summary verifConn<Method>(recv, args...),
-// `go x.monitor(...)` becomes verifGo(func() { ... }) and context.WithCancel becomes verifWithCancel -
+// `go x.monitor(...)` becomes verifGo(func() { ... }), context.WithCancel becomes verifWithCancel and
+// atomic.CompareAndSwapInt32 becomes verifCAS32 (interference from another goroutine before the operation) -
 // the same redirections the symbolic run makes by intrinsics.  The rewrite is driven by go/types, so
 // it does not depend on how the call sites are spelled (locals, helpers, nesting).
 func typedConnRewrite(pkgDir, modfile, tags string, harnessOverlay map[string][]byte) (map[string]string, string) {
@@ -56,6 +57,15 @@ func typedConnRewrite(pkgDir, modfile, tags string, harnessOverlay map[string][]
 				sel, ok := x.Fun.(*ast.SelectorExpr)
 				if !ok {
 					return true
+				}
+				if id, ok := sel.X.(*ast.Ident); ok && sel.Sel.Name == "CompareAndSwapInt32" {
+					if pn, ok := p.TypesInfo.Uses[id].(*types.PkgName); ok && pn.Imported().Path() == "sync/atomic" {
+						lp, ce := off(x.Lparen), off(x.End())
+						nodes = append(nodes, node{off(x.Pos()), ce, func(rr func(a, b int) string) string {
+							return "verifCAS32" + rr(lp, ce)
+						}})
+						return true
+					}
 				}
 				if id, ok := sel.X.(*ast.Ident); ok && sel.Sel.Name == "WithCancel" {
 					if pn, ok := p.TypesInfo.Uses[id].(*types.PkgName); ok && pn.Imported().Path() == "context" {
